@@ -64,6 +64,7 @@ import Restful.Lemmas.AllowHolds
 import Restful.Lemmas.StateShape
 import Restful.Lemmas.TieImpTemplate
 import Restful.Lemmas.TieImpAllowed
+import Restful.Lemmas.TieImpDetect
 namespace Restful
 namespace Props
 open Str
@@ -764,3 +765,4 @@ end Restful.C17Holds
 -- translation (tools/goimp, Gen/Imp.lean, regenerated on every run):
 -- also: Restful.TieImp.template_to_regex
 -- also: Restful.TieImp.compute_allowed_methods
+-- also: Restful.TieImp.detect_route
